@@ -15,6 +15,8 @@ Both models (`Forest.copy`/`stepC`, `addIterationSuffix`/`copyLabel`) are compar
 -/
 import MagpyVerif.Model.Copy
 import MagpyVerif.Lemmas.Copy
+import MagpyVerif.Model.ForestAttr
+import MagpyVerif.Lemmas.ForestAttr
 namespace MagpyVerif.C18
 open MagpyVerif Forest
 
@@ -357,5 +359,260 @@ example : addIterationSuffix "a1b007".toList = "a1b008".toList := by decide
 example : labelValue "col_02".toList = 2 ∧ labelValue "col".toList = 0 := by decide
 example : addIterationSuffix (addIterationSuffix "x99".toList) = "x101".toList := by decide
 example : copyLabel "Sensor".toList true none = some "Sensor_01".toList := by decide
+
+
+/-! ## attributes, containers, keyword overrides, later operations (Model/ForestAttr.lean)
+
+State `AForest` = the forest + per object a record (class, scalar attributes, pending style keyword arguments) and
+the ADDRESSES of its mutable containers (`_position`, `_orientation`, `_polarization`, `_dimension`, `_moment`,
+`_pixel`, `_style`) in a heap of cells.  `WF` = no container is held twice (by two objects or in two slots).
+`s.view j` = everything a public read of object `j` returns apart from the tree links.  `s.copyKw o kw` =
+`obj.copy(**kwargs)`; the copy is object `s.f.n`, the clone of `x` is `s.f.cren o x`.  `run ops s` = a history.
+All of it is executed by the driver and compared with the real objects by the `forestattr` stream, including which
+container objects stay and which are replaced. -/
+section Attr
+open AForest
+
+/-- every state reachable from constructed objects by ANY history (tree operations, move / rotate / position= on
+objects and collections, attribute and style writes, style reads, copies with keyword overrides) is
+heap-well-formed — no two attributes of any objects are the same container — and consistent and acyclic -/
+theorem reachable_wf (specs : List Spec) (ops : List AOp) :
+    WF (run ops (init specs)) ∧ (run ops (init specs)).f.Inv ∧ (run ops (init specs)).f.Acyclic := by
+  obtain ⟨hw, hf⟩ := init_wf specs
+  have hs : Sep (fun _ => False) (init specs) :=
+    ⟨hw, by rw [hf]; exact init_inv _, by rw [hf]; exact init_acyclic _, fun _ _ _ => Iff.rfl, fun _ h => h.elim⟩
+  obtain ⟨h, _⟩ := run_sep ops _ hs (fun _ _ _ _ h => h)
+  exact ⟨h.wf, h.inv, h.acyc⟩
+
+/-- (c) NO SHARED MUTABLE STATE: after `copy(**kwargs)` no container held by a clone is held by any object that
+existed before — whatever slot, including the original's freshly realised style; and (second part) the containers the
+old objects held BEFORE the call (apart from the original's style slot, which stays or is created) are still held
+by them, so the clones' containers are also disjoint from every container that existed before -/
+theorem copy_heap_disjoint (s : AForest) (hw : WF s) (hi : s.f.Inv) (ha : s.f.Acyclic) (o : Nat) (ho : o < s.f.n)
+    (kw : List Ov) :
+    WF (s.copyKw o kw) ∧
+    (∀ i j sl tl a, i < s.f.n → IsNew s.f o j → ((s.copyKw o kw).na i).adr sl = some a →
+      ((s.copyKw o kw).na j).adr tl ≠ some a) ∧
+    (∀ i sl, i < s.f.n → ¬ (i = o ∧ sl = .style) → ((s.copyKw o kw).na i).adr sl = (s.na i).adr sl) := by
+  have h1 := copyKw_step s o kw hw hi ha ho
+  have hn : (s.copyKw o kw).f.n = s.f.n + (s.f.cnodes o).length := by rw [h1.f_eq, copy0_f, copy_n]
+  refine ⟨h1.wf, ?_, ?_⟩
+  · intro i j sl tl a hi' hj ha' hb
+    have := h1.wf.inj i j sl tl a (by rw [hn]; omega) (by rw [hn]; exact hj.2) ha' hb
+    have := hj.1; omega
+  · intro i sl hi' hne
+    have hlt : i < (s.copy0 o).f.n := lt_of_lt_of_le hi' (copy0_keeps s o hw).n_le
+    rw [h1.keeps.adr_eq i sl ⟨⟨by omega, Or.inl (fun h => by have := h.1; omega)⟩, hne⟩ hlt, copy0_na_old s o i hi']
+
+/-- (b) KEYWORD OVERRIDES (and the label) ACT ON THE COPY ONLY: every object that existed before — the original, its
+ancestors, its descendants, unrelated objects — reads exactly as before the call, and keeps its tree links; every
+object other than the original keeps its whole record and every container unchanged (the original's lazily
+un-initialised style is realised by the call: its record changes, its reads do not) -/
+theorem copy_overrides_only_copy (s : AForest) (hw : WF s) (hi : s.f.Inv) (ha : s.f.Acyclic) (o : Nat)
+    (ho : o < s.f.n) (kw : List Ov) (j : Nat) (hj : j < s.f.n) :
+    (s.copyKw o kw).view j = s.view j ∧ (s.copyKw o kw).f.parent j = s.f.parent j ∧
+    (s.copyKw o kw).f.children j = s.f.children j ∧ (s.copyKw o kw).f.kind j = s.f.kind j ∧
+    (j ≠ o → (s.copyKw o kw).na j = s.na j ∧ ∀ sl a, (s.na j).adr sl = some a → (s.copyKw o kw).heap a = s.heap a) := by
+  have h0 := copy0_keeps s o hw
+  have h1 := copyKw_step s o kw hw hi ha ho
+  have hB := copyKw_phaseB s o kw hw hi ha ho
+  have hf : (s.copyKw o kw).f = s.f.copy o := h1.f_eq
+  obtain ⟨t1, t2, _, _, _, t6⟩ := Forest.C18aux.copy_old s.f o j hj
+  have hjn : j ≠ s.f.n := by omega
+  have hnq : ¬ NewQ s o j := fun h => by have := h.1; omega
+  have hj0 : j < (s.copy0 o).f.n := lt_of_lt_of_le hj h0.n_le
+  refine ⟨?_, by rw [hf]; exact t1, by rw [hf]; exact t2, by rw [hf]; exact t6, ?_⟩
+  · by_cases hjo : j = o
+    · subst hjo
+      obtain ⟨hA, sv, c1, c2, _⟩ := labelStep_spec s j hw hj
+      have hjA : j < (labelStep s (s.copy0 j) j).f.n := by rw [hA.f_eq]; exact hj0
+      have hmB := hB.keeps.meta_eq j hjn hjA
+      refine view_congr s _ j j ?_ ?_ (hmB.1.trans c1) (hmB.2.1.trans c2)
+      · intro sl hsl
+        rw [h1.keeps.cellAt j sl ⟨⟨hjn, Or.inl hnq⟩, fun h => hsl h.2⟩ hj0, h0.cellAt j sl trivial hj]
+      · rw [styleView_congr _ _ j j (hB.keeps.cellAt j .style ⟨hjn, Or.inl hnq⟩ hjA) hmB.2.2, sv]
+    · exact (view_of_keeps h1.keeps j hj0 (fun sl => ⟨⟨hjn, Or.inl hnq⟩, fun h => hjo h.1⟩) ⟨hjn, hjo⟩).trans
+        (view_of_keeps h0 j hj (fun _ => trivial) trivial)
+  · intro hjo
+    have hk := (h0.mono (P' := fun i _ => i = j) (M' := (· = j)) (fun _ _ _ => trivial) (fun _ _ => trivial)).trans
+      (h1.keeps.mono (fun i tl h => by subst h; exact ⟨⟨hjn, Or.inl hnq⟩, fun h => hjo h.1⟩)
+        (fun i h => by subst h; exact ⟨hjn, hjo⟩))
+    obtain ⟨m1, m2, m3⟩ := hk.meta_eq j rfl hj
+    have hadr : ((s.copyKw o kw).na j).adr = (s.na j).adr := funext fun sl => hk.adr_eq j sl rfl hj
+    refine ⟨?_, fun sl a h => hk.heap_eq j sl a rfl hj h⟩
+    cases ht : (s.copyKw o kw).na j; cases hs' : s.na j
+    rw [ht, hs'] at m1 m2 m3 hadr
+    simp only at m1 m2 m3 hadr
+    rw [m1, m2, m3, hadr]
+
+/-- (a) SAME CLASS, SHAPE AND ATTRIBUTE VALUES.  For every object `x` of the copied subtree, with `j` its clone:
+* the class is the original's (the tree shape is `copy_subtree_iso`);
+* if `x` is not the copied object itself: geometry / excitation arrays, scalar attributes and the style read exactly
+  as `x`'s, whatever the keyword arguments; the path (position and orientation) too unless a `position=` keyword
+  was given (which moves the children of a copied collection along, as the position setter does);
+* the copied object itself, without keyword arguments: everything reads as the original's except the style label,
+  which is the iterated label (`copyLabel`: none if the original has neither a style object nor style arguments,
+  `<Class>_01` for an unlabelled original, the incremented label otherwise). -/
+theorem copy_attrs_equal (s : AForest) (hw : WF s) (hi : s.f.Inv) (ha : s.f.Acyclic) (o : Nat) (ho : o < s.f.n)
+    (kw : List Ov) (x : Nat) (hx : x ∈ s.f.cnodes o) :
+    ((s.copyKw o kw).na (s.f.cren o x)).cls = (s.na x).cls ∧
+    (s.copyKw o kw).f.kind (s.f.cren o x) = s.f.kind x ∧
+    (x ≠ o →
+      (∀ sl, sl ≠ .pos → sl ≠ .ori → (s.copyKw o kw).cellAt (s.f.cren o x) sl = s.cellAt x sl) ∧
+      ((s.copyKw o kw).na (s.f.cren o x)).scal = (s.na x).scal ∧
+      (s.copyKw o kw).styleView (s.f.cren o x) = s.styleView x ∧
+      ((∀ ov ∈ kw, ∀ p, ov ≠ .pos p) → (s.copyKw o kw).view (s.f.cren o x) = s.view x)) ∧
+    (x = o → kw = [] →
+      (s.copyKw o kw).view (s.f.cren o x) =
+        { s.view o with style :=
+            if s.touched o then { s.styleView o with label := copyLabel (clsName (s.na o).cls) true (s.styleView o).label }
+            else s.styleView o }) := by
+  have hnew := cren_isNew s.f o x hx
+  have hsrc := csrc_cren s.f o x hx
+  have h1 := copyKw_step s o kw hw hi ha ho
+  have hB := copyKw_phaseB s o kw hw hi ha ho
+  obtain ⟨hA, _, _, _, svr, clr, scr, cellr⟩ := labelStep_spec s o hw ho
+  have hj0 : s.f.cren o x < (s.copy0 o).f.n := by rw [copy0_f, copy_n]; exact hnew.2
+  have hjo : s.f.cren o x ≠ o := by have := hnew.1; omega
+  have hcell0 : ∀ sl, (s.copy0 o).cellAt (s.f.cren o x) sl = s.cellAt x sl := by
+    intro sl; rw [copy0_cellAt_new s o _ hnew, hsrc]
+  have hmeta0 := copy0_meta_new s o _ hnew
+  rw [hsrc] at hmeta0
+  have hf : (s.copyKw o kw).f = s.f.copy o := h1.f_eq
+  refine ⟨?_, by rw [hf]; exact copy_kind_cren s.f o x hx, ?_, ?_⟩
+  · by_cases hxo : x = o
+    · subst hxo
+      rw [cren_root]
+      have hr : s.f.n < (labelStep s (s.copy0 x) x).f.n := by rw [hA.f_eq]; exact (root_new s x).2
+      rw [h1.cls_eq, (copy0_meta_new s x _ ((newQ_iff s x s.f.n).mp (root_new s x))).1, csrc_root]
+    · have hjr : s.f.cren o x ≠ s.f.n := fun h => hxo ((cren_eq_root_iff s.f o x hx).mp h)
+      rw [(h1.keeps.meta_eq _ ⟨hjr, hjo⟩ hj0).1, hmeta0.1]
+  · intro hxo
+    have hjr : s.f.cren o x ≠ s.f.n := fun h => hxo ((cren_eq_root_iff s.f o x hx).mp h)
+    have hm := h1.keeps.meta_eq _ ⟨hjr, hjo⟩ hj0
+    have hc : ∀ sl, sl ≠ .pos → sl ≠ .ori → (s.copyKw o kw).cellAt (s.f.cren o x) sl = s.cellAt x sl := by
+      intro sl h1' h2'
+      rw [h1.keeps.cellAt _ sl ⟨⟨hjr, Or.inr ⟨h1', h2'⟩⟩, fun h => hjo h.1⟩ hj0, hcell0]
+    refine ⟨hc, hm.2.1.trans hmeta0.2.1, ?_, ?_⟩
+    · exact styleView_congr s _ x _ (hc .style (by decide) (by decide)) (hm.2.2.trans hmeta0.2.2)
+    · intro hnp
+      have hBn := copyKw_phaseB_nopos s o kw hw ho hnp
+      have hjA : s.f.cren o x < (labelStep s (s.copy0 o) o).f.n := by rw [hA.f_eq]; exact hj0
+      have hcc : ∀ sl, (s.copyKw o kw).cellAt (s.f.cren o x) sl = s.cellAt x sl := by
+        intro sl
+        rw [hBn.keeps.cellAt _ sl hjr hjA, hA.keeps.cellAt _ sl ⟨hjr, fun h => hjo h.1⟩ hj0, hcell0]
+      exact view_congr s _ x _ (fun sl _ => hcc sl)
+        (styleView_congr s _ x _ (hcc _) (hm.2.2.trans hmeta0.2.2)) (hm.1.trans hmeta0.1) (hm.2.1.trans hmeta0.2.1)
+  · intro hxo hkw
+    subst hxo hkw
+    rw [cren_root]
+    have : s.copyKw x [] = labelStep s (s.copy0 x) x := by
+      unfold copyKw; simp [styleKw, SData.nonempty, SData.empty]
+    rw [this]
+    unfold view
+    have hp : ∀ sl, sl ≠ .style → (labelStep s (s.copy0 x) x).cellAt s.f.n sl = s.cellAt x sl := cellr
+    unfold posOf oriOf intsOf
+    simp only [List.map_cons, List.map_nil]
+    rw [hp .pos (by decide), hp .ori (by decide), hp .a0 (by decide), hp .a1 (by decide), hp .a2 (by decide),
+      hp .a3 (by decide), svr, clr, scr]
+
+
+theorem copyKw_sep_new (s : AForest) (hw : WF s) (hi : s.f.Inv) (ha : s.f.Acyclic) (o : Nat) (ho : o < s.f.n)
+    (kw : List Ov) : Sep (IsNew s.f o) (s.copyKw o kw) ∧ Sep (· < s.f.n) (s.copyKw o kw) := by
+  have h1 := copyKw_step s o kw hw hi ha ho
+  have hf : (s.copyKw o kw).f = s.f.copy o := h1.f_eq
+  have hinv := copy_inv s.f hi ha o
+  have hac := copy_acyclic s.f hi ha o
+  constructor
+  · refine ⟨h1.wf, by rw [hf]; exact hinv, by rw [hf]; exact hac, ?_, ?_⟩
+    · rw [hf]
+      intro y c hyc
+      have := copy_closed_new s o hi ha y c hyc
+      rwa [newQ_iff, newQ_iff] at this
+    · intro j hj; rw [hf, copy_n]; exact hj.2
+  · refine ⟨h1.wf, by rw [hf]; exact hinv, by rw [hf]; exact hac, by rw [hf]; exact copy_closed_lt s o hi, ?_⟩
+    intro j hj; rw [hf, copy_n]; omega
+
+/-- (d) LATER CHANGES TO EITHER SIDE ARE INVISIBLE TO THE OTHER.  Right after `copy(**kwargs)`:
+(i) ANY later history that names no clone — operations on the original, on its descendants, on its ANCESTORS (a
+move / rotate / position= of a collection above the original legitimately moves the original and everything below
+it: those are old objects; the copy has no parent and is not reached), on unrelated objects, on objects created later
+from them, tree edits among them, further copies of them — leaves every object of the copied subtree exactly as it
+was: same reads, same record, same containers with the same content, same parent and children;
+(ii) ANY later history that names no object that existed before the copy — operations on the copy, its subtree,
+objects created from them — leaves every old object exactly as it was.
+"Names" = `mentions`: the receiver and every object argument of the operation.  Proof: induction over the history
+with the invariant `Sep` (heap well-formed, consistent, acyclic, no parent link crosses the border), the step being
+the frame lemma of each operation; (c) is what makes in-place writes on one side harmless for the other. -/
+theorem later_ops_invisible (s : AForest) (hw : WF s) (hi : s.f.Inv) (ha : s.f.Acyclic) (o : Nat) (ho : o < s.f.n)
+    (kw : List Ov) (ops : List AOp) :
+    ((∀ op ∈ ops, ∀ i ∈ mentions op, ¬ IsNew s.f o i) → ∀ j, IsNew s.f o j →
+      (run ops (s.copyKw o kw)).view j = (s.copyKw o kw).view j ∧
+      (run ops (s.copyKw o kw)).f.parent j = (s.copyKw o kw).f.parent j ∧
+      (run ops (s.copyKw o kw)).f.children j = (s.copyKw o kw).f.children j ∧
+      (run ops (s.copyKw o kw)).f.kind j = (s.copyKw o kw).f.kind j ∧
+      (run ops (s.copyKw o kw)).na j = (s.copyKw o kw).na j ∧
+      (∀ sl a, ((s.copyKw o kw).na j).adr sl = some a → (run ops (s.copyKw o kw)).heap a = (s.copyKw o kw).heap a)) ∧
+    ((∀ op ∈ ops, ∀ i ∈ mentions op, ¬ i < s.f.n) → ∀ j, j < s.f.n →
+      (run ops (s.copyKw o kw)).view j = (s.copyKw o kw).view j ∧
+      (run ops (s.copyKw o kw)).f.parent j = (s.copyKw o kw).f.parent j ∧
+      (run ops (s.copyKw o kw)).f.children j = (s.copyKw o kw).f.children j ∧
+      (run ops (s.copyKw o kw)).f.kind j = (s.copyKw o kw).f.kind j ∧
+      (run ops (s.copyKw o kw)).na j = (s.copyKw o kw).na j ∧
+      (∀ sl a, ((s.copyKw o kw).na j).adr sl = some a → (run ops (s.copyKw o kw)).heap a = (s.copyKw o kw).heap a)) := by
+  obtain ⟨h1, h2⟩ := copyKw_sep_new s hw hi ha o ho kw
+  constructor
+  · intro hm j hj
+    exact (run_sep ops _ h1 hm).2.view h1 j hj
+  · intro hm j hj
+    exact (run_sep ops _ h2 hm).2.view h2 j hj
+
+/-- (a)–(d) hold in every reachable state: the hypotheses `WF`, `Inv`, `Acyclic` of the theorems above are
+consequences of reachability (`reachable_wf`), so for every history `ops0` from constructed objects, every existing
+object `o`, all keyword arguments and every later history the statements apply; here (d) spelled out for the reads -/
+theorem later_ops_invisible_reachable (specs : List Spec) (ops0 : List AOp) (o : Nat)
+    (ho : o < (run ops0 (init specs)).f.n) (kw : List Ov) (ops : List AOp) :
+    let s := run ops0 (init specs)
+    ((∀ op ∈ ops, ∀ i ∈ mentions op, ¬ IsNew s.f o i) → ∀ j, IsNew s.f o j →
+      (run ops (s.copyKw o kw)).view j = (s.copyKw o kw).view j) ∧
+    ((∀ op ∈ ops, ∀ i ∈ mentions op, ¬ i < s.f.n) → ∀ j, j < s.f.n →
+      (run ops (s.copyKw o kw)).view j = s.view j) := by
+  intro s
+  obtain ⟨hw, hi, ha⟩ := reachable_wf specs ops0
+  obtain ⟨a, b⟩ := later_ops_invisible s hw hi ha o ho kw ops
+  exact ⟨fun hm j hj => (a hm j hj).1,
+    fun hm j hj => ((b hm j hj).1).trans (copy_overrides_only_copy s hw hi ha o ho kw j hj).1⟩
+
+/-! non-vacuity: collection 0 (at (1,0,0), style arguments pending) holding magnet 1 (polarization (1,2,3), at (5,5,5));
+copy of 0 with `position=(0,0,9)` and `style_label="k"`; then the ORIGINAL collection is moved by (1,1,1) and the
+magnet gets a new polarization; then the copy's magnet (object 3) is moved -/
+def demoA : AForest :=
+  run [.tree (.add 0 [1] false)] (init
+    [{ kind := .coll, cls := 5, pos := [⟨1, 0, 0⟩], arrs := [], scal := [], skw := ⟨some "c".toList, [(0, 1)]⟩ },
+     { kind := .src, cls := 0, pos := [⟨5, 5, 5⟩], arrs := [(.a0, [1, 2, 3]), (.a1, [1, 1, 1])], scal := [], skw := SData.empty }])
+
+def demoKw : List Ov := [.pos [⟨0, 0, 9⟩], .label "k".toList]
+def demoLater : List AOp := [.move 0 (.scalar ⟨1, 1, 1⟩) none, .setArr 1 .a0 [7, 7, 7]]
+
+example : demoA.f.n = 2 ∧ (demoA.copyKw 0 demoKw).f.n = 4 ∧ (demoA.copyKw 0 demoKw).f.children 2 = [3] := by decide
+-- the copy: own position, label from the keyword, pending opacity kept; its magnet moved along, same polarization
+example : (demoA.copyKw 0 demoKw).posOf 2 = [⟨0, 0, 9⟩] ∧ (demoA.copyKw 0 demoKw).posOf 3 = [⟨4, 5, 14⟩] ∧
+    (demoA.copyKw 0 demoKw).intsOf 3 .a0 = some [1, 2, 3] ∧
+    (demoA.copyKw 0 demoKw).styleView 2 = ⟨some "k".toList, [(0, 1)]⟩ := by decide
+-- the original: untouched by the overrides
+example : (demoA.copyKw 0 demoKw).posOf 0 = [⟨1, 0, 0⟩] ∧ (demoA.copyKw 0 demoKw).posOf 1 = [⟨5, 5, 5⟩] ∧
+    (demoA.copyKw 0 demoKw).styleView 0 = ⟨some "c".toList, [(0, 1)]⟩ := by decide
+-- without keywords the label is iterated: "c" -> "c_01"
+example : (demoA.copyKw 0 []).styleView 2 = ⟨some "c_01".toList, [(0, 1)]⟩ := by decide
+-- later operations on the original side really change the original side, and name no clone
+example : (run demoLater (demoA.copyKw 0 demoKw)).posOf 1 = [⟨6, 6, 6⟩] ∧
+    (run demoLater (demoA.copyKw 0 demoKw)).intsOf 1 .a0 = some [7, 7, 7] ∧
+    (run demoLater (demoA.copyKw 0 demoKw)).posOf 3 = [⟨4, 5, 14⟩] ∧
+    (run demoLater (demoA.copyKw 0 demoKw)).intsOf 3 .a0 = some [1, 2, 3] := by decide
+example : ∀ op ∈ demoLater, ∀ i ∈ mentions op, ¬ IsNew demoA.f 0 i := by decide
+-- the containers of the copy are new ones
+example : ((demoA.copyKw 0 demoKw).na 1).adr .pos = some 2 ∧ ((demoA.copyKw 0 demoKw).na 3).adr .pos = some 24 := by decide
+
+end Attr
 
 end MagpyVerif.C18
